@@ -11,6 +11,10 @@ search():     differential runs of the real code: same configuration and seed un
               (global-generator draws between init and run or at a random loop-function boundary, another sim run in
               between, fresh interpreter / hash seed, worker process); exact equality of every result and state;
               changing the seed must change every dist's seed.
+              Stream census (round 5): during every reference run the `ss.Dist` objects that draw inside the simulation are
+              collected by identity; each must be one of sim.dists with seed = sha224(trace) mod 1e9 + rand_seed (the hypothesis of
+              C01_seed_changes_every_stream_partial), and on two seeds the generator state each was seeded with must differ
+              (`oracle_streams`: vaccines incl. all-or-nothing, screening, treatment, pipelines, the recorded readers' configurations).
 """
 import os, sys, json, subprocess, random as pyrandom
 import numpy as np
@@ -18,7 +22,7 @@ from harness import impl, snap
 from harness.props import c04
 
 PROP = 'C01'
-GENERATED = ['GlobalReads', 'SeedFacts', 'RngConsts']
+GENERATED = ['GlobalReads', 'SeedFacts', 'RngConsts', 'DistSites']
 DRIVER = c04.DRIVER
 DRIVER_MODULES = ['StarsimModel.Model.Rng', 'StarsimModel.Model.Proto', 'StarsimModel.Model.Footprint']
 RULE = ('generated configurations (disease x network x demographics x time spec; with and without the modules known to read the global generator) '
@@ -236,8 +240,178 @@ def seeds_inproc(cfg):
 # differential runs
 
 def run_ref(cfg):
-    sim = make_sim(cfg); sim.run()
+    """ the reference run; every reference run of the check is also a stream census (see `stream_census`): the
+        distributions that drew during it are inspected afterwards and anything not seeded by the rule the theorems
+        assume is queued in SUSPECTS for `search()` to confirm on a second seed """
+    with stream_census() as cen:
+        sim = make_sim(cfg); sim.run()
+    try:
+        bad = [r for r in cen.records(sim) if not r['ok']]
+        if bad and len(SUSPECTS) < 40:
+            SUSPECTS.append((cfg, bad))
+        CENSUS_STATS['runs'] += 1; CENSUS_STATS['streams'] += cen.n_used
+    except Exception as e:
+        CENSUS_STATS['errors'] += 1; CENSUS_STATS['last_error'] = f'{type(e).__name__}: {e}'
     return snap.everything(sim)
+
+
+# ---------------------------------------------------------------------------
+# stream census: which distributions drew, and how each of them was seeded
+
+SUSPECTS = []
+CENSUS_STATS = dict(runs=0, streams=0, errors=0)
+
+
+def sim_seed(cfg):
+    return cfg['c20case']['sim'].get('rand_seed', 0) if 'c20case' in cfg else cfg['rand_seed']
+
+
+def with_seed(cfg, seed):
+    import copy
+    c = copy.deepcopy(cfg)
+    if 'c20case' in c: c['c20case']['sim']['rand_seed'] = seed
+    else: c['rand_seed'] = seed
+    return c
+
+
+class stream_census:
+    """ Context manager: while active, every `ss.Dist` object whose `rvs` is called is remembered (the object, not a
+        name: a distribution created in the middle of a run, or one that no container lists, is seen like any other).
+        `records(sim)` then describes each of them, plus every distribution reachable from the sim object, by
+          registered   the object is one of `sim.dists.dists` (what `Sim.init_dists` seeded with `rand_seed`)
+          formula      its seed equals sha224(trace) mod 1e9 + rand_seed (C01_seed_formula)
+          state0       digest of the bit-generator state right after seeding (`history[0]`)
+        `ok` = registered and formula: the hypothesis under which C01_seed_changes_all speaks about this stream. """
+
+    def __enter__(self):
+        import starsim as ss
+        self.ss = ss
+        self.used = {}
+        self.patched = []
+        used = self.used
+        simtypes = (ss.Sim, ss.Loop)
+        def inside_sim():
+            # is this draw made by a simulation (a frame of Sim.init / Sim.run / Loop.* on the stack)?  Draws a user makes
+            # from their own object before handing it to a Sim are process history, not streams of the simulation.
+            fr = sys._getframe(2); depth = 0
+            while fr is not None and depth < 80:
+                if isinstance(fr.f_locals.get('self'), simtypes): return True
+                fr = fr.f_back; depth += 1
+            return False
+        def wrap(orig):
+            def rvs(d, *a, **k):
+                if id(d) not in used and inside_sim(): used[id(d)] = d
+                return orig(d, *a, **k)
+            rvs.__wrapped__ = orig
+            return rvs
+        # every NumPy generator constructed by simulation code (np.random.default_rng looked up at call time): who made it
+        # (innermost starsim object on the stack) and the state it starts from
+        self.gens = []; gens = self.gens
+        self.orig_default_rng = np.random.default_rng
+        orig_rng = self.orig_default_rng
+        def default_rng(*a, **k):
+            g = orig_rng(*a, **k)
+            try:
+                fr = sys._getframe(1); who = None; insim = False; depth = 0
+                while fr is not None and depth < 80:
+                    slf = fr.f_locals.get('self')
+                    if who is None and slf is not None and type(slf).__module__.startswith('starsim'):
+                        who = (type(slf).__name__, fr.f_code.co_name, getattr(slf, 'trace', None) if isinstance(slf, ss.Dist) else getattr(slf, 'name', None), isinstance(slf, ss.Dist))
+                    if isinstance(slf, simtypes): insim = True
+                    fr = fr.f_back; depth += 1
+                if who is not None and insim:
+                    gens.append(who + (repr(g.bit_generator.state),))
+            except Exception:
+                pass
+            return g
+        np.random.default_rng = default_rng
+        seen = set(); todo = [ss.Dist]
+        while todo:
+            c = todo.pop()
+            if c in seen: continue
+            seen.add(c); todo += c.__subclasses__()
+            if 'rvs' in c.__dict__:
+                self.patched.append((c, c.__dict__['rvs'])); setattr(c, 'rvs', wrap(c.__dict__['rvs']))
+        return self
+
+    def __exit__(self, *exc):
+        for c, orig in self.patched: setattr(c, 'rvs', orig)
+        np.random.default_rng = self.orig_default_rng
+        return False
+
+    def generators(self):
+        """ {key: digest of the initial state} of the generators simulation code constructed that are NOT a distribution's own
+            (`Dist.init`), keyed by owner class, method, owner name and ordinal """
+        import hashlib
+        out = {}; n = {}
+        for cls, fn, name, is_dist, st in self.gens:
+            if is_dist: continue
+            base = f'{cls}.{fn}:{name}'; n[base] = n.get(base, 0) + 1
+            out[f'{base}#{n[base]}'] = hashlib.sha1(st.encode()).hexdigest()
+        return out
+
+    @property
+    def n_used(self): return len(self.used)
+
+    def records(self, sim):
+        import hashlib, sciris as sc
+        ss = self.ss
+        reg = {id(d): t for t, d in sim.dists.dists.items()}
+        objs = dict(self.used)
+        try:     # everything reachable now, by the same search `Dists.init` uses (finds what was attached after init)
+            skip = dict(ids=id(sim.people._states), keys='module')
+            for path, d in sc.search(sim, type=ss.Dist, skip=skip, flatten=True).items():
+                objs.setdefault(id(d), d)
+        except Exception:
+            pass
+        rs = int(sim.pars.rand_seed); out = []; n_anon = {}
+        for i, d in objs.items():
+            mod = type(d.module).__name__ if getattr(d, 'module', None) is not None else ''
+            trace = reg.get(i)
+            if trace is not None: key = 'reg:' + trace
+            else:
+                base = f'unregistered:{mod}:{type(d).__name__}:{d.trace or d.name}'
+                n_anon[base] = n_anon.get(base, 0) + 1; key = f'{base}#{n_anon[base]}'
+            drew = i in self.used
+            hist = getattr(d, 'history', None) or []
+            st0 = hashlib.sha1(repr(hist[0]).encode()).hexdigest() if len(hist) else None
+            formula = (trace is not None and d.seed is not None and int(d.seed) == c04.str2int_ref(trace, 10**9) + rs)
+            if trace is not None and rs == 0 and d.seed is not None:
+                formula = True      # (base seed 0 re-uses a pre-initialised distribution's previous seed: the recorded finding C01-reinit-seed-zero, not this oracle's business)
+            out.append(dict(key=key, cls=type(d).__name__, module=mod, name=str(d.trace or d.name), registered=trace is not None, drew=drew,
+                            seed=None if d.seed is None else int(d.seed), formula=bool(formula), state0=st0,
+                            ok=bool((trace is not None and formula) or not (drew or getattr(d, 'called', 0)))))
+        return out
+
+
+def census_run(cfg, gens=False):
+    with stream_census() as cen:
+        sim = make_sim(cfg); sim.run()
+    return (cen.records(sim), cen.generators()) if gens else cen.records(sim)
+
+
+def oracle_streams(cfg, seed_step):
+    """ `Changing the seed changes every distribution's stream`, on the real code, for every distribution that drew in
+        both runs — however it was created and wherever it lives: the generator state it was seeded with must differ
+        between rand_seed and rand_seed + seed_step. """
+    ra, ga = census_run(cfg, gens=True)
+    c2 = with_seed(cfg, sim_seed(cfg) + seed_step)
+    rb, gb = census_run(c2, gens=True)
+    a = {r['key']: r for r in ra}; b = {r['key']: r for r in rb}
+    private = sorted(k for k in ga if ga[k] == gb.get(k))
+    if private:
+        return (dict(oracle='seed-change', structure='generator:' + private[0].split(':')[0]),
+                f"changing rand_seed ({sim_seed(cfg)} -> {sim_seed(c2)}) left the initial state of {len(private)} NumPy generator(s) constructed by simulation code "
+                f"outside a distribution unchanged: {private[:3]}", dict(kind='streams', cfg=cfg, seed_step=seed_step))
+    same = sorted(k for k in a if k in b and (a[k]['drew'] or b[k]['drew']) and a[k]['state0'] is not None and a[k]['state0'] == b[k]['state0'])
+    if same:
+        r = a[same[0]]
+        how = 'registered' if r['registered'] else 'not registered in sim.dists'
+        return (dict(oracle='seed-change', structure='stream:' + (r['module'] or '?') + '.' + r['cls']),
+                f"changing rand_seed ({sim_seed(cfg)} -> {sim_seed(c2)}) left the generator state of {len(same)} distribution(s) that drew during the run unchanged: "
+                f"{[a[k]['name'] for k in same[:3]]} (owner {r['module'] or '?'}, {how}, seed {r['seed']} in both runs)",
+                dict(kind='streams', cfg=cfg, seed_step=seed_step))
+    return None
 
 
 def _gstate():
@@ -298,6 +472,10 @@ def run_history(cfg, hist, rng, shield=False):
                     if not done(sim): sim.loop.run_one_step()
             else: sim.run_one_step()
         sim.run()
+        if kind == 'twin-alternate' and hist.get('n', 1) % 2 == 1:
+            # the deep-copied twin is a simulation with the same configuration and seed too: on odd `n` it is the one compared
+            st = keep(); other.run(); back(st)       # (finishes and finalises it, as `sim.run()` above does for the original)
+            return snap.everything(other)
         return snap.everything(sim)
     if kind == 'twin-copy':
         import sciris as sc
@@ -397,7 +575,14 @@ def attribute(cfg, what, channel='global-generator', hist=None):
 
 def oracle_diff(cfg, hist, rng=None):
     ref = run_ref(cfg)
-    other = run_history(cfg, hist, rng)
+    try:
+        other = run_history(cfg, hist, rng)
+    except Exception as e:
+        # the reference run completed: a run of the same configuration and seed that RAISES under another process history
+        # is a difference too (unless the history's other simulation is what cannot run)
+        if 'other' in hist:
+            make_sim(hist['other']).run()      # raises again when the other simulation is the culprit: not a case
+        return f"same configuration and seed, history `{hist['kind']}`: the reference run completes, this run raises {type(e).__name__}: {str(e)[:160]}"
     d = snap.diff(ref, other)
     if d:
         return f"same configuration and seed, history `{hist['kind']}`: {d}"
@@ -477,6 +662,24 @@ def search(ctx):
         if msg:
             for f in attribute(cfg, msg, channel=kind, hist=hist):
                 ctx.fail(f['signature'], f['what'], dict(kind='diff', cfg=cfg, hist=hist))
+    # always exercised: deep-copied twins (run after the original / advanced in turns with it) of simulations whose
+    # distributions have CALLABLE parameters bound to a module (Pregnancy's fertility, Deaths' rate): whatever such a
+    # callable holds on to is not copied by deepcopy
+    for dem in (['pregnancy'], ['pregnancy', 'deaths'], ['deaths']):
+        for kind in ('twin-copy', 'twin-alternate'):
+            cfg = impl.gen_sim_config(ctx.rng, small=True, diseases=['sis'], networks=['random'], demographics=dem, allow_global_readers=False,
+                                      time=dict(unit='year', dt=ctx.rng.choice([1.0, 0.5]), start=2000, dur=ctx.rng.choice([4, 6])))
+            for d in cfg['demographics']:
+                if d['type'] == 'pregnancy': d.update(fertility_rate=150, burnin=False)
+            hist = dict(kind=kind, n=ctx.rng.randint(1, 9), k=ctx.rng.choice([1, 2, 3]))
+            try:
+                msg = oracle_diff(cfg, hist)
+            except Exception as e:
+                ctx.count('oracle_exceptions'); ctx.notes['last_oracle_exception'] = f'{type(e).__name__}: {e}'; continue
+            ctx.count('differential_runs'); ctx.count('history:' + kind + '/demographics')
+            if msg:
+                for f in attribute(cfg, msg, channel=kind, hist=hist):
+                    ctx.fail(f['signature'], f['what'], dict(kind='diff', cfg=cfg, hist=hist))
     # per-network betas given as a dict / a mixing pool serving two named diseases: the order in which networks and
     # diseases are processed must not depend on the hash seed
     for k in range(ctx.budget(3, 6)):
@@ -509,6 +712,38 @@ def search(ctx):
             ctx.count('oracle_exceptions'); ctx.notes['last_oracle_exception'] = f'{type(e).__name__}: {e}'; continue
         ctx.count('user_dist_runs')
         if r: ctx.fail(*r)
+    # every stream of every family, on two seeds: interventions delivering products (all-or-nothing and leaky vaccines, routine
+    # and campaign; screening; treatment; test-and-treat pipelines), the configurations of the recorded global readers (the places
+    # where a module makes random decisions outside the registered distributions today), generated configurations
+    for cfg in stream_family_cfgs(ctx):
+        try:
+            r = oracle_streams(cfg, ctx.rng.randint(1, 50))
+        except Exception as e:
+            ctx.count('oracle_exceptions'); ctx.notes['last_oracle_exception'] = f'streams: {type(e).__name__}: {e}'; continue
+        ctx.count('stream_seed_pairs')
+        if r: ctx.fail(*r)
+    # ... and the census taken during EVERY reference run above (generated, product, zoo, table, dict-beta, user-dist
+    # configurations): a distribution that drew without being seeded by the rule the theorems assume is re-run on a second seed
+    ctx.notes['stream_census'] = dict(CENSUS_STATS)
+    ctx.count('census_runs', CENSUS_STATS['runs']); ctx.count('census_streams', CENSUS_STATS['streams'])
+    if CENSUS_STATS['errors']:
+        ctx.broke('correspondence', 'C01.census', f"the stream census failed on {CENSUS_STATS['errors']} reference run(s): {CENSUS_STATS.get('last_error')}")
+    done = set()
+    for cfg, bad in list(SUSPECTS):
+        fam = tuple(sorted({(r['module'], r['cls'], r['registered'], r['formula']) for r in bad}))
+        if fam in done: continue
+        done.add(fam)
+        try:
+            r = oracle_streams(cfg, 7)
+        except Exception as e:
+            ctx.count('oracle_exceptions'); ctx.notes['last_oracle_exception'] = f'streams: {type(e).__name__}: {e}'; continue
+        if r: ctx.fail(*r)
+        else:
+            b0 = bad[0]
+            ctx.broke('correspondence', 'C01.registered', f"distribution `{b0['name']}` ({b0['module']}.{b0['cls']}) drew during the run but "
+                      + ('is not one of sim.dists (never seeded by Sim.init_dists)' if not b0['registered'] else f"has seed {b0['seed']}, not sha224(trace) mod 1e9 + rand_seed")
+                      + ': the hypothesis of C01_seed_formula / C01_seed_changes_all does not cover it', data=dict(kind='streams', cfg=cfg, seed_step=7))
+    del SUSPECTS[:]
     # changing the seed changes every distribution's stream: its seed, and what is actually drawn from it
     for k in range(ctx.budget(3, 20)):
         cfg = impl.gen_sim_config(ctx.rng, small=True)
@@ -522,6 +757,39 @@ def search(ctx):
         msg = oracle_seed_change(cfg, dict(cfg, rand_seed=12))
         if msg:
             ctx.fail(dict(oracle='seed-change', what=msg[0]), msg[1], dict(kind='seedchange', cfg=cfg, cfg2=dict(cfg, rand_seed=12)))
+
+
+def stream_family_cfgs(ctx):
+    """ configurations for the two-seed stream comparison; the fixed part is exercised on every run """
+    import copy
+    from harness.props import c20_impl
+    out = []
+    base = dict(n_agents=150, rand_seed=ctx.rng.randint(0, 500), unit='year', dt=1.0, start=2000, dur=6, demographics=[],
+                diseases=[dict(type='sir', beta=0.3, init_prev=0.1, p_death=0)], networks=[dict(type='random', n_contacts=4, dur=0)])
+    for leaky in (False, True):
+        out.append(dict(copy.deepcopy(base), interventions=[dict(type='sir_vx', leaky=leaky, efficacy=0.6, prob=0.7, start_year=2001, end_year=2004)]))
+    # campaign / routine delivery of an all-or-nothing vaccine, a screening, a treatment and a pipeline from the C20 scenarios
+    for case in c20_impl.fixed_cases() + c20_impl.fixed_cases_r3():
+        tag = (case.get('kind'), case.get('delivery'), (case.get('vaccine') or {}).get('kind'), bool(case.get('pipeline')), bool(case.get('syph')))
+        if tag in [x[0] for x in out if isinstance(x, tuple)]: continue
+        out.append((tag, dict(c20case=copy.deepcopy(case))))
+    out = [c if isinstance(c, dict) else c[1] for c in out]
+    # the configurations of the recorded findings (global readers)
+    try:
+        for f in json.load(open(os.path.join(VERIF, 'known_findings.d', 'C01.json'))):
+            c = (f.get('replay') or {}).get('cfg')
+            if c and f['signature'].get('oracle') == 'global-reader': out.append(copy.deepcopy(c))
+    except Exception:
+        pass
+    for k in range(ctx.budget(2, 12)):
+        out.append(gen_cfg(ctx.rng, k, products=(k % 2 == 1)))
+    if not (ctx.thorough or ctx.broken):
+        # quick tier: the vaccine pair and the recorded readers always; of the C20 scenarios a rotating third
+        fixed = [c for c in out if 'c20case' not in c]; c20 = [c for c in out if 'c20case' in c]
+        aon = [c for c in c20 if (c['c20case'].get('vaccine') or {}).get('kind') == 'aon']
+        rest = [c for c in c20 if c not in aon]
+        out = fixed + aon + [c for i, c in enumerate(rest) if (i + ctx.seed) % 3 == 0]
+    return out
 
 
 RANDOM_NETS = ('static', 'random', 'erdosrenyi', 'disk', 'mf', 'msm', 'embedding')
@@ -597,6 +865,8 @@ def replay(ctx, data):
         return any(b is not None and a != b for b in (run_subprocess(data['cfg'], 'run', hashseed=hs) for hs in data.get('hashseeds', (1, 2))))
     if k == 'userdist':
         return oracle_user_dist(data['cfg'], data['k'], data['seed_step']) is not None
+    if k == 'streams':
+        return oracle_streams(data['cfg'], data['seed_step']) is not None
     if k == 'seedchange':
         return oracle_seed_change(data['cfg'], data['cfg2']) is not None
     if k == 'reinit-seed-zero':
